@@ -16,8 +16,8 @@ func (p *prop) Generate(rng *core.Rand, tier string, emit func(string)) {
 	if p.corpus == nil {
 		p.corpus = loadCorpus()
 	}
-	nSort, nSite, nMut, nGram, nRaw, nLeak := 16000, 1800, 2200, 900, 900, 200
-	nRec, nImp := 1700, 1000
+	nSort, nSite, nMut, nGram, nRaw, nLeak := 14000, 1600, 1800, 800, 800, 200
+	nRec, nImp := 1400, 900
 	switch tier {
 	case "thorough":
 		nSort, nSite, nMut, nGram, nRaw, nLeak = 300000, 14000, 45000, 18000, 15000, 2000
